@@ -3,7 +3,7 @@
    /repo on every run by srcfacts/golite.go) under the interpreter of Base/GoLite.v.  [fn t] is the
    translated function, or a function that panics at once when the translator refused it. *)
 From Coq Require Import String.
-From Radius Require Import Base.Bytes Base.Res Base.Guard Base.GoLite Gen.Src Crypto.MD5 Model.SrcRun Proofs.SrcBase Proofs.SrcCtx Spec.C04 Spec.C11 Proofs.SrcPassword Proofs.SrcTunnel.
+From Radius Require Import Base.Bytes Base.Res Base.Guard Base.GoLite Gen.Src Crypto.MD5 Model.SrcRun Proofs.SrcBase Proofs.SrcCtx Spec.C04 Spec.C11 Proofs.SrcTunnel.
 Open Scope list_scope.
 Open Scope nat_scope.
 
@@ -21,3 +21,14 @@ Theorem C11_source_TunnelPassword : forall cx n a sec ra, bytes_ok a -> 16 < n -
   end.
 Proof. exact src_TunnelPassword_spec. Qed.
 Print Assumptions C11_source_TunnelPassword.
+
+(* non-vacuity: a password through the translated Tunnel-Password encoder and back *)
+Example C11_src_example :
+  match src_run "NewTunnelPassword" 100 [VBytes [112; 119]%N; VBytes [128; 1]%N; VBytes [115]%N; VBytes (repeat 2%N 16)] with
+  | Some (Some (VTup [VBytes c; VNil])) =>
+      length c = 18 /\
+      src_run "TunnelPassword" 100 [VBytes c; VBytes [115]%N; VBytes (repeat 2%N 16)] =
+        Some (Some (VTup [VBytes [112; 119]%N; VBytes [128; 1]%N; VNil]))
+  | _ => False
+  end.
+Proof. vm_compute. split; reflexivity. Qed.
